@@ -65,6 +65,12 @@ pub fn quiet_panics() {
             "<non-string panic>".to_string()
         };
         let loc = info.location().map(|l| format!("{}:{}", l.file(), l.line())).unwrap_or_default();
+        if std::env::var_os("MC_LOUD_PANICS").is_some() {
+            eprintln!("panic: {msg} @ {loc}");
+            if std::env::var("MC_LOUD_PANICS").map(|v| v == "2").unwrap_or(false) {
+                eprintln!("{}", std::backtrace::Backtrace::force_capture());
+            }
+        }
         LAST_PANIC.with(|c| *c.borrow_mut() = Some(format!("{msg} @ {loc}")));
     }));
 }
